@@ -46,3 +46,12 @@ Proof.
   intros. split; [intros t; apply or_else_simulate|]. split; [intros c; apply or_else_assess | intros c t w; apply or_else_generate].
 Qed.
 Print Assumptions C13_or_else_is_if.
+
+(* ---- non-vacuity: concrete non-trivial programs and traces meeting the hypotheses above (proofs/GFIWitness.v) ---- *)
+From Proofs Require Import GFIWitness.
+Example C13_hypotheses_met :
+  (wft ex_switch (tr_of ex_switch ex_switch_a) /\ length (t_choices (tr_of ex_switch ex_switch_a)) = 1%nat) /\
+  (let t := tr_of (g_or_else (GDist 0) ex_kernel) [VB false; VT [VZ 4]; VT [VZ 2; VZ 3]] in
+   wft (g_or_else (GDist 0) ex_kernel) t /\ length (t_choices t) = 1%nat).
+Proof. exact (conj ex_switch_wft ex_or_else_wft). Qed.
+Print Assumptions C13_hypotheses_met.
